@@ -21,7 +21,7 @@ const modPath = "github.com/influxdata/influxdb"
 
 var targetDirs = []string{
 	"coordinator", "services/meta", "services/hh", "models", "tsdb/engine/tsm1", "tsdb",
-	"pkg/encoding/simple8b", "tsdb/cursors", "services/retention", "query",
+	"pkg/encoding/simple8b", "tsdb/cursors", "services/retention", "query", "services/httpd",
 }
 
 type engine struct {
